@@ -97,15 +97,23 @@ class Config:
         # per-frame cells: constant, or changing from frame to frame (constant-pressure run,
         # sheared cell); positions follow the cell affinely
         self.hs, self.origins = [h.copy() for _ in range(T)], [np.array(origin, dtype=float) for _ in range(T)]
-        if r.get("cells", "const") == "vary" and not self.exact:
+        mode = r.get("cells", "const")
+        if mode in ("vary", "shear", "cycle") and not self.exact:
             for t in range(1, T):
-                ht = h * (1.0 + rng.uniform(-0.1, 0.1, size=ndim))[None, :]
+                if mode == "shear":
+                    # the cell keeps its edge lengths: only the tilt (triclinic) or the origin moves
+                    ht = h.copy()
+                else:
+                    ht = h * (1.0 + rng.uniform(-0.1, 0.1, size=ndim))[None, :]
                 if r["cell"] == "tri":
                     ht[1, 0] += rng.uniform(-0.15, 0.15) * h[0, 0]
                     if ndim == 3:
                         ht[2, 0] += rng.uniform(-0.15, 0.15) * h[0, 0]
                         ht[2, 1] += rng.uniform(-0.15, 0.15) * h[1, 1]
                 ot = origin + rng.uniform(-0.3, 0.3, size=ndim)
+                if mode == "cycle" and t == T - 1:
+                    # compress / release, oscillatory strain: the last frame is back in the first cell
+                    ht, ot = h.copy(), np.array(origin, dtype=float)
                 s = np.linalg.solve(h.T, (self.frames[t] - origin).T).T
                 self.frames[t] = s @ ht + ot
                 self.hs[t], self.origins[t] = ht, ot
